@@ -49,6 +49,12 @@ def check(ctx):
     ctx.ob("R1", "send-queue::one-consumer", len(cons) == 1 and cons[0][2] == "pop", f"send queue consumers: {[(f.qual, k) for f, _, k in cons]} (expected a single pop)", repo.cls(SOCK).loc)
     for fi, n, k in prod:
         ctx.ob("R1", f"{fi.qual}::append-under-lock", in_lock(fi, n), f"{fi.qual}: queue append outside `with self._lock`", loc(fi, n))
+        gq = cfg_of(fi)
+        an = [x for x in gq.stmt_nodes() if n in list(x.walk())]
+        uncond = bool(an) and gq.pdom(an[0], gq.entry) and not gq.guards(an[0])
+        ctx.ob("R1", f"{fi.qual}::every-request-is-queued", uncond,
+               f"{fi.qual}: the append is conditional ({[(t.text(), l) for t, l in gq.guards(an[0])] if an else '?'}): some queue_send calls transmit nothing "
+               f"(a retry would spend its budget without a retransmission; sends are dropped or re-ordered)", loc(fi, n))
         ok = len(n.args) == 1 and isinstance(n.args[0], ast.Tuple) and len(n.args[0].elts) == 2
         ctx.ob("R1", f"{fi.qual}::queues-handler-and-destination", ok, f"{fi.qual}: queue element is not (handler, destination)", loc(fi, n))
     for fi, n, k in cons:
